@@ -32,6 +32,9 @@ pub enum Provide {
     Long(u8),
     /// call twice; the second call changes value number `pos` by `delta` (zero delta = same)
     Twice { pos: u16, delta: Val },
+    /// call once, with value number `pos` changed by `delta` != 0: complete and self-consistent,
+    /// but possibly in conflict with what the circuit determines for that input
+    Changed { pos: u16, delta: Val },
 }
 
 #[derive(Clone, Debug, Serialize, Deserialize, Hash)]
@@ -52,13 +55,18 @@ pub struct Outcome {
     pub witness: Option<u64>,
     /// did the successful run's values equal the reference evaluation of the program?
     pub matches_reference: Option<bool>,
+    /// after a successful run: does every input slot hold the value the caller supplied?
+    #[serde(default)]
+    pub inputs_kept: Option<bool>,
 }
 
 pub const RULE: &str = "random satisfying programs rich in hint / recompose-NPO consumers and connect-shared slots \
 (5 fields) x an input plan per input kind (public, private): provide once, skip, too short, too long, set twice with \
-equal or conflicting values; the case runs in the release-profile binary and in the debug-assertion-profile binary \
+equal or conflicting values, provide once with one value changed (conflicting with the circuit where the circuit \
+determines it); the case runs in the release-profile binary and in the debug-assertion-profile binary \
 (child process). Oracle: verdict class (Ok/Err) equal in both profiles; Ok only if every declared input was provided \
-consistently, and then the witness equals the reference evaluation in both; no panic or abort in either profile. \
+consistently, and then the witness equals the reference evaluation in both and every input slot holds the value \
+the caller supplied; no panic or abort in either profile. \
 Non-trivial = a plan that withholds, truncates, extends or conflicts an input of a program that declares it; \
 distinct on (program hash, plan)";
 
@@ -81,6 +89,7 @@ fn apply<C: Fc>(
             }
             set(&v)
         }
+        Provide::Changed { .. } => set(&supplied::<C>(plan, vals).unwrap()),
         Provide::Twice { pos, delta } => {
             set(vals)?;
             let mut v = vals.to_vec();
@@ -93,6 +102,27 @@ fn apply<C: Fc>(
     }
 }
 
+/// The vector the caller ends up supplying, when the plan supplies a complete one.
+fn supplied<C: Fc>(plan: &Provide, vals: &[C::EF]) -> Option<Vec<C::EF>> {
+    match plan {
+        Provide::Once => Some(vals.to_vec()),
+        Provide::Twice { delta, .. } if delta.resolve::<C>() == C::EF::default() => Some(vals.to_vec()),
+        Provide::Changed { pos, delta } => {
+            let mut v = vals.to_vec();
+            if !v.is_empty() {
+                let k = crate::fw::pick(*pos, v.len());
+                let mut d = delta.resolve::<C>();
+                if d == C::EF::default() {
+                    d = <C::EF as p3_field::PrimeCharacteristicRing>::ONE;
+                }
+                v[k] += d;
+            }
+            Some(v)
+        }
+        _ => None,
+    }
+}
+
 /// Does the plan provide the inputs consistently (given how many are declared)?
 fn consistent<C: Fc>(plan: &Provide, n: usize) -> bool {
     match plan {
@@ -101,6 +131,7 @@ fn consistent<C: Fc>(plan: &Provide, n: usize) -> bool {
         Provide::Short(_) => false,
         Provide::Long(_) => false,
         Provide::Twice { delta, .. } => n == 0 || delta.resolve::<C>() == C::EF::default(),
+        Provide::Changed { .. } => true,
     }
 }
 
@@ -121,6 +152,7 @@ fn observe<C: Fc>(c: &Case) -> (Outcome, usize, usize) {
                     stage: "build".into(),
                     witness: None,
                     matches_reference: None,
+                    inputs_kept: None,
                 },
                 usize::MAX,
                 usize::MAX,
@@ -144,6 +176,7 @@ fn observe<C: Fc>(c: &Case) -> (Outcome, usize, usize) {
                     stage: "build".into(),
                     witness: None,
                     matches_reference: None,
+                    inputs_kept: None,
                 },
                 np,
                 nq,
@@ -157,6 +190,7 @@ fn observe<C: Fc>(c: &Case) -> (Outcome, usize, usize) {
         stage: stage.to_string(),
         witness: None,
         matches_reference: None,
+                    inputs_kept: None,
     };
     if let Err(e) = apply::<C>(&c.public, &publics, &mut |v| runner.set_public_inputs(v)) {
         return (mk(format!("err:{}", err(&e)), "set_public"), np, nq);
@@ -178,11 +212,20 @@ fn observe<C: Fc>(c: &Case) -> (Outcome, usize, usize) {
                         .and_then(|s| traces.witness_trace.get_value(*s))
                         .is_some_and(|v| *v == n.val)
             });
+            let kept = |rows: &[WitnessId], sup: Option<Vec<C::EF>>| -> bool {
+                match sup {
+                    None => true,
+                    Some(v) => rows.iter().zip(&v).all(|(s, x)| traces.witness_trace.get_value(*s) == Some(x)),
+                }
+            };
+            let inputs_kept = kept(&circuit.public_rows, supplied::<C>(&c.public, &publics))
+                && kept(&circuit.private_input_rows, supplied::<C>(&c.private, &privates));
             (
                 Outcome {
                     class: "ok".into(),
                     stage: String::new(),
                     witness: Some(hash_of(&w)),
+                    inputs_kept: Some(inputs_kept),
                     matches_reference: Some(ok_ref),
                 },
                 np,
@@ -201,6 +244,7 @@ pub fn observe_any(c: &Case) -> (Outcome, usize, usize) {
                 stage: "panic".into(),
                 witness: None,
                 matches_reference: None,
+                    inputs_kept: None,
             },
             usize::MAX,
             usize::MAX,
@@ -272,6 +316,7 @@ fn ask_peer(c: &Case) -> Result<Outcome, String> {
                 stage: "child-died".into(),
                 witness: None,
                 matches_reference: None,
+                    inputs_kept: None,
             });
         }
         let mut resp = String::new();
@@ -286,6 +331,7 @@ fn ask_peer(c: &Case) -> Result<Outcome, String> {
                     stage: "child-died".into(),
                     witness: None,
                     matches_reference: None,
+                    inputs_kept: None,
                 })
             }
         }
@@ -331,7 +377,27 @@ pub fn oracle(c: &Case) -> Report {
             format!("release {:?} vs debug {:?}", rel, dbg),
         );
     }
+    let changed = matches!(c.public, Provide::Changed { .. }) && np > 0 || matches!(c.private, Provide::Changed { .. }) && nq > 0;
+    if changed {
+        rep.nontrivial = true;
+    }
     if ok(&rel) {
+        if rel.inputs_kept == Some(false) || dbg.inputs_kept == Some(false) {
+            return fail(
+                rep,
+                &format!("C19/success-with-a-supplied-input-overwritten:{plan}"),
+                format!("run() = Ok but an input slot does not hold the value the caller supplied: release {:?} debug {:?}", rel, dbg),
+            );
+        }
+        if changed {
+            // complete, self-consistent inputs that may conflict with the circuit: success is
+            // legitimate when the changed input is unconstrained; values then differ from the
+            // reference of the original inputs (value correctness is C02's subject)
+            if rel.witness != dbg.witness {
+                return fail(rep, "C19/profile-divergence:witness-values", "both profiles succeed with different witness tables".into());
+            }
+            return rep.class("outcome:ok-changed-input-kept");
+        }
         if withholds {
             // A withheld input whose slot the circuit itself defines (connect to a constant or
             // to a computed value) is fully determined: success is then derived from complete
@@ -374,6 +440,7 @@ fn plan_name(p: &Provide) -> &'static str {
         Provide::Long(_) => "long",
         Provide::Twice { delta, .. } if delta.is_zero_sym() => "twice-same",
         Provide::Twice { .. } => "twice-different",
+        Provide::Changed { .. } => "changed",
     }
 }
 
@@ -394,6 +461,7 @@ fn provide() -> impl Strategy<Value = Provide> {
         1 => (0u8..3).prop_map(Provide::Long),
         1 => any::<u16>().prop_map(|pos| Provide::Twice { pos, delta: Val::zero() }),
         2 => (any::<u16>(), e1::nonzero_val_strategy()).prop_map(|(pos, delta)| Provide::Twice { pos, delta }),
+        3 => (any::<u16>(), e1::nonzero_val_strategy()).prop_map(|(pos, delta)| Provide::Changed { pos, delta }),
     ]
 }
 
